@@ -1,13 +1,14 @@
 """C06 — malformed or hostile files yield an error, never a panic, hang or memory blow-up.
 Partial by nature (DESIGN.md section 5/C06).  Parts:
- 1. proof: totality / fuel / allocation-bound theorems of Properties/C06.v (Totality.v: hardened VBA
-    decompressor, sector-chain walk, cell-reference parser; re-exports of the no-Panic lemmas of the
-    other properties' models);
- 2. correspondence of the hardened copies of Totality.v with the code (commands `tot_*`);
- 3. function-level malformed streams: every other property module that exposes `malformed(ctx)`;
- 4. whole-file fault enumeration through every reader and every read call (`open … everything`),
-    under a capped allocator (relative to the input size), a per-case watchdog and an address-space
-    limit:
+ 1. proof: Properties/C06.v re-exports, with the same statements, the totality (no Panic / fuel)
+    theorems of every slice — one per parser entry point, grouped by format — and adds the
+    allocation bound of the sector-chain walk (Totality.v on Cfb.v's model).  Its header lists which
+    entry points have NO theorem.  The models are tied to the code by the correspondence checks of
+    the slices that own them (./check C01 … C20), not again here;
+ 2. function-level malformed streams: every other property module that exposes `malformed(ctx)`;
+ 3. whole-file fault enumeration through every reader and every read call (`open … everything`),
+    under a capped allocator (relative to the input size), a per-case watchdog, a 2 MiB stack and an
+    address-space limit:
       a. corpus/C06: one witness per failure site that was repaired (a reverted fix fails here
          first) and one per known finding;
       b. systematic pass: for a few seed files, each structure (BIFF / xlsb record, CFB header field,
@@ -23,7 +24,7 @@ warnings.filterwarnings("ignore", category=UserWarning, module="zipfile")
 ASSUMPTIONS = [
     "allocation blow-up = a single request above 64 MiB + 1000 x input size (capped allocator; never above 512 MiB) or exhaustion of a 4 GB address space; hang = a case exceeding the 10 s watchdog (inputs are below 2 MB); unbounded recursion = overflow of a 2 MiB stack (the default of a Rust thread; the case runs on a thread of that size)",
     "zip and quick-xml internals, the allocator and real time are sampled by this run only, not modelled",
-    "totality theorems cover decompress_stream, Sectors::get_chain and get_row_and_optional_column (hardened copies in Totality.v tied by the tot_* correspondence) plus the re-exported lemmas; every other parser is covered by the fault enumeration only",
+    "the totality theorems of Properties/C06.v are those of the slices' models (tied to the code by the slices' own correspondence checks); the entry points listed in its header as having no theorem are covered by the fault enumeration only",
 ]
 FMT_EXT = {"xlsx": "xlsx", "xlsb": "xlsb", "xls": "xls", "ods": "ods"}
 ENV = {"VH_PANIC_INFO": "1", "VH_CASE_TIMEOUT_MS": "10000", "VH_ALLOC_REL": "67108864:1000", "VH_STACK_MB": "2"}
@@ -404,19 +405,10 @@ def run_function_level(ctx):
                                            "actual": str(dg.get("impl"))[:200], "model": str(dg.get("model"))[:200],
                                            "what": "unpredicted failure in %s" % dg.get("function", f[:-3])})
 
-def run_totality(ctx):
-    try:
-        from props import c06_tot
-    except Exception as e:
-        ctx.notes.append("totality correspondence not available: %s" % e)
-        return
-    c06_tot.run(ctx)
-
 def run(ctx):
     load_known(ctx)
     run_corpus(ctx)
     run_valid_fixtures(ctx)
-    run_totality(ctx)
     run_function_level(ctx)
     run_systematic(ctx)
     run_random(ctx, ctx.scale(6, 600))
@@ -437,8 +429,6 @@ def run_only(ctx, what):
             run_valid_fixtures(ctx)
         elif w == "function":
             run_function_level(ctx)
-        elif w == "totality":
-            run_totality(ctx)
         elif w == "buildcorpus":
             build_corpus(ctx)
 
